@@ -37,7 +37,7 @@ def make_problem(seed, exact, nmax, N, kpm=False):
     hermitian = True if kpm else rng.random() < 0.55
     cplx = rng.random() < 0.5
     nb = rng.randint(1, 3)
-    sizes = [rng.randint(1, 2) for _ in range(nb)]
+    sizes = [rng.randint(1, 3 if rng.random() < 0.3 else 2) for _ in range(nb)]
     # non-Hermitian extras: a REAL non-symmetric H_0 whose first two explicit eigenvalues are a complex-conjugate
     # pair a +- ib (eigenvectors complex, H_0 real dtype), or generic complex levels for complex H_0
     real_pair = (not hermitian) and (not kpm) and rng.random() < 0.35
@@ -70,7 +70,15 @@ def make_problem(seed, exact, nmax, N, kpm=False):
     bases = rng.sample([-3, -1, 1, 3], nb)
     levels = []
     for s, b in zip(sizes, bases):
-        levels += [float(b)] * s if (rng.random() < 0.5 or s == 1) else [float(b) + 0.5 * j for j in range(s)]
+        if rng.random() < 0.4 or s == 1:
+            lv = [float(b)] * s
+        elif s == 3 and rng.random() < 0.6:
+            lv = [float(b), float(b) + 0.5, float(b)]        # a degenerate level interleaved with another level
+        else:
+            lv = [float(b) + 0.5 * j for j in range(s)]
+            if rng.random() < 0.6:
+                lv.reverse()                                   # levels inside a block need not be ascending
+        levels += lv
     rest = [6.0 + 1.0 * j for j in range(n - nexp)]
     if rng.random() < 0.3 and len(rest) > 1:
         rest[1] = rest[0]  # degenerate implicit levels are fine
